@@ -106,16 +106,23 @@ Theorem C03Heap_remove_edge_good : forall rr rt h e, Good h -> alookup e (hedges
 Proof. exact remove_edge_good. Qed.
 Print Assumptions C03Heap_remove_edge_good.
 
-(** (b, partial) Tree.removeTip: its first step and the body of its single-node loop (the
-    parent forgets the leaf, the leaf and its branch leave the heap) keep the heap good ... *)
+(** (b) Tree.removeTip (all of it: the single-node loop of Case 1, Case 1b, the four orientation
+    sub-cases of Case 2 on an inner node or on the root, Case 3): whenever it reports success
+    the heap is still good *)
+Theorem C03Heap_remove_tip_good : forall h name tip h', Good h ->
+  remove_tip_heap name tip h = HOk h' -> Good h'.
+Proof. exact remove_tip_heap_good. Qed.
+Print Assumptions C03Heap_remove_tip_good.
+
+(** its first step and the body of its single-node loop (the parent forgets the leaf, the leaf
+    and its branch leave the heap) never fail on a non-root leaf *)
 Theorem C03Heap_drop_leaf_good : forall h x hx q ex, Good h ->
   alookup x (hnodes h) = Some hx -> hneigh hx = [q] -> hbr hx = [ex] -> x <> hroot h ->
   exists h', (do h1 <- del_neighbor q x h; del_node x h1) = HOk h' /\ Good h'.
 Proof. exact drop_leaf_good. Qed.
 Print Assumptions C03Heap_drop_leaf_good.
 
-(** ... hence removeTip itself when the neighbour of the tip keeps at least three neighbours
-    (tree.go "Case 3"; Cases 1 and 2 are not proved at heap level) *)
+(** and removeTip succeeds when the neighbour of the tip keeps at least three neighbours *)
 Theorem C03Heap_remove_tip_case3_good : forall h name tip ht q ex hq, Good h ->
   alookup tip (hnodes h) = Some ht -> hneigh ht = [q] -> hbr ht = [ex] -> tip <> hroot h ->
   alookup q (hnodes h) = Some hq -> 4 <= length (hneigh hq) ->
@@ -254,8 +261,8 @@ Example C03Heap_run_history :
 Proof. vm_compute. reflexivity. Qed.
 Print Assumptions C03Heap_run_history.
 
-(** the three operations whose refinement square is not proved (only [Good]-preservation, and
-    for removeTip not even that): the heap transformers agree with the tree models of
+(** the three operations whose refinement square is not proved (only [Good]-preservation): the
+    heap transformers agree with the tree models of
     Model/Collapse.v, Model/Prune.v and (GraftTipOnEdge) Model/TreeGen.v [graft_node] on every
     branch / tip of three trees, error cases included *)
 (** ((a,(b,(c,d)x)y)z,e,f) with decorations *)
